@@ -168,6 +168,22 @@ inline void installWatchdog(int periodS = 30) {
     signal(SIGILL, crashHandler);
 }
 
+// ------------------------------------------------------------------------------------ digest
+// Running FNV-1a hash of every observation a harness makes (state keys, search results, file bytes).
+// C17 compares it across build configurations: results must not depend on compiler, optimisation
+// level or standard-library checking mode.
+inline unsigned long long &digestState() { static unsigned long long h = 1469598103934665603ULL; return h; }
+inline void digest(const std::string &s) {
+    unsigned long long &h = digestState();
+    for (unsigned char c : s) { h ^= c; h *= 1099511628211ULL; }
+    h ^= 0xffu;
+    h *= 1099511628211ULL;
+}
+inline void digestNum(unsigned long long v) {
+    unsigned long long &h = digestState();
+    for (int k = 0; k < 8; ++k) { h ^= (v >> (8 * k)) & 0xffu; h *= 1099511628211ULL; }
+}
+
 // ---------------------------------------------------------------------------------- reporter
 // Collects violations (deduplicated by signature, a few full examples kept per signature), samples
 // and counters, and writes the worker's JSON result file.
@@ -228,6 +244,11 @@ struct Reporter {
             }
         o.raw("violations", jarr(vs));
         o.unum("violation_count", violations());
+        {
+            char b[32];
+            snprintf(b, sizeof b, "%016llx", digestState());
+            o.str("digest", b);
+        }
         o.dbl("wall_s", clock_().elapsed());
         return o.render();
     }
